@@ -312,3 +312,30 @@ add("C01", "B", E, "        if n_atoms in [1, 2]:", "        if n_atoms <= 3:", 
 add("C01", "P", E, "        if n_atoms in [1, 2]:", "        if n_atoms < 3:", "size test written n < 3")
 add("C05", "B", S, "                new_block = True\n                start_index += 1", "                new_block = True\n                start_index += l_index_mol",
     "scanner jumps over the discarded window")
+
+# ----------------------------------------------------------------------------- rules added in round 3 (DESIGN 10.15)
+add("C07", "B", TM, "    while queue:\n        ind1, ind2, bond = queue.pop()", "    _SEEN_MOVES[atom_index] = n_atoms\n    while queue:\n        ind1, ind2, bond = queue.pop()",
+    "the move records something in a module-level dict", more=[(TM, "def move_mol_atom(", "_SEEN_MOVES: dict = {}\n\n\ndef move_mol_atom(")])
+add("C11", "B", S, "        for index, gro_start, ammount in self._molecules_ordered:\n            len_mol = len(self.different_molecules[index].resnames)\n            for i in range(ammount):\n                yield (index, gro_start+i*len_mol, gro_start+(i+1)*len_mol)",
+    "        if not getattr(self, '_all_cache', None):\n            self._all_cache = []\n            for index, gro_start, ammount in self._molecules_ordered:\n                len_mol = len(self.different_molecules[index].resnames)\n                for i in range(ammount):\n                    self._all_cache.append((index, gro_start+i*len_mol, gro_start+(i+1)*len_mol))\n        for item in self._all_cache:\n            yield item",
+    "instance list remembered on the System and never reset")
+add("C12", "B", P, "        return self.readline()  #type: ignore\n", "        return self.readline()  #type: ignore\n\n    def __iter__(self):\n        for line in self._file:\n            yield self.parse_atomline(line, self._format)\n",
+    "public iteration reads the file without advancing the record counter")
+add("C14", "B", P, "            self._file = open(path, mode) # type: ignore", "            self._file = open(path, mode, opener=lambda p_, fl_: os.open(p_, fl_ & ~os.O_TRUNC, 0o666)) # type: ignore",
+    "write mode no longer truncates at open time")
+add("C14", "P", P, "            self._file = open(path, mode) # type: ignore", "            self._file = open(path, mode=mode) # type: ignore", "mode passed by keyword")
+add("C17", "B", A, "    if not np.any(vec3):", "    if np.linalg.norm(vec3) < 1e-8:", "collinearity decided with a tolerance")
+add("C17", "B", A, "        axis[np.argmin(np.abs(vec1))] = 1", "        axis[np.argmin(np.abs(pos1-pos0))] = 1", "lab axis chosen from another vector (zero for coincident points)")
+add("C18", "B", C, "        return Molecule(self._molecule_top.copy(), new_residues)", "        if new_residues is not self._residues:\n            return self.copy(new_residues)\n        return Molecule(self._molecule_top.copy(), new_residues)",
+    "deep copy with replacement residues shares the topology")
+add("C18", "P", C, "        return Molecule(self._molecule_top.copy(), new_residues)", "        top = self._molecule_top.copy()\n        return Molecule(top, new_residues)", "cloned topology bound to a local first")
+add("C20", "B", CLI, "        extension = name.split(\".\")[-1]", "        extension = name.split(\".\", 1)[-1]", "extension = everything after the FIRST dot")
+add("C20", "P", CLI, "        extension = name.split(\".\")[-1]", "        extension = name.rsplit(\".\", 1)[-1]", "split written as rsplit")
+# canonical forms added in round 3
+add("C04", "P", E, "        if not isinstance(refmolecule, Molecule):\n            raise TypeError(\"Argument must be a Molecule\")\n        if self._refmolecule != refmolecule:\n            raise TypeError((\"refmolecule must be:\\n{}\"\n                             \"\").format(self._refmolecule))\n",
+    "        error = None\n        if not isinstance(refmolecule, Molecule):\n            error = \"Argument must be a Molecule\"\n        elif self._refmolecule != refmolecule:\n            error = \"refmolecule must be:\\n{}\".format(self._refmolecule)\n        if error is not None:\n            raise TypeError(error)\n",
+    "single raise site with an error text chosen first")
+add("C18", "P", R, "        for atom in self._atoms_gro:\n            yield atom", "        yield from self._atoms_gro", "loop-and-yield written as yield from")
+add("C06", "P", R, "        for atom in self._atoms_gro:\n            yield atom", "        yield from self._atoms_gro", "loop-and-yield written as yield from")
+add("C20", "P", CLI, "    if args.mol is None:\n        molecules = []\n    else:\n        molecules = args.mol", "    molecules = args.mol\n    if molecules is None:\n        molecules = []", "default-then-override")
+add("C08", "P", B, "        chi2 = np.sum(distances.min(axis=1))\n        n_cg_far = len(mol2) - len(set(distances.argmin(axis=1)))", "        chi2 = np.min(distances, axis=1).sum()\n        n_cg_far = len(mol2) - np.unique(np.argmin(distances, axis=1)).size", "reductions written the other way round")
